@@ -17,6 +17,8 @@ import Mathlib.Data.List.Forall2
 -/
 namespace Ark.Curve.TE
 
+set_option linter.unusedSectionVars false
+
 variable {F : Type} [Field F] [DecidableEq F]
 
 /-! ## Bool ↔ Prop -/
@@ -134,5 +136,154 @@ theorem addMixed_mk (c : Curve F) (hA : ∀ e, c.mulByA e = c.a * e) (P : F × F
   · field_simp; subst hK; ring
   · field_simp; subst hK; ring
   · subst hK; ring
+
+/-- the general statement used for all six addition entry points -/
+theorem add_correct (c : Curve F) (hA : ∀ e, c.mulByA e = c.a * e) (p q : Ext F) (P Q : F × F)
+    (hp : wellFormed p = true) (hq : wellFormed q = true)
+    (hP : toAff p = some P) (hQ : toAff q = some Q) (hd : affAddDefined c.d P Q = true) :
+    wellFormed (add c p q) = true ∧ toAff (add c p q) = some (affAdd c.a c.d P Q) := by
+  obtain ⟨hz1, e1⟩ := ext_repr hp hP
+  obtain ⟨hz2, e2⟩ := ext_repr hq hQ
+  obtain ⟨h1, h2⟩ := (affAddDefined_iff _ _ _).1 hd
+  rw [e1, e2, add_mk c hA P Q _ _ h1 h2]
+  exact denotes_mk _ (mul_ne_zero (mul_ne_zero (mul_ne_zero hz1 hz2) (mul_ne_zero hz1 hz2))
+    (mul_ne_zero h2 h1))
+
+theorem addMixed_correct (c : Curve F) (hA : ∀ e, c.mulByA e = c.a * e) (p : Ext F) (q : Affine F)
+    (P : F × F) (hp : wellFormed p = true) (hP : toAff p = some P)
+    (hd : affAddDefined c.d P (ofAffine q) = true) :
+    wellFormed (addMixed c p q) = true ∧
+      toAff (addMixed c p q) = some (affAdd c.a c.d P (ofAffine q)) := by
+  obtain ⟨hz1, e1⟩ := ext_repr hp hP
+  obtain ⟨h1, h2⟩ := (affAddDefined_iff _ _ _).1 hd
+  simp only [ofAffine] at h1 h2
+  rw [e1, addMixed_mk c hA P q _ h1 h2]
+  exact denotes_mk _ (mul_ne_zero (mul_ne_zero hz1 hz1) (mul_ne_zero h2 h1))
+
+/-! ## negation, conversion from affine -/
+
+theorem neg_mk (P : F × F) (z : F) : (mk P z).neg = mk (affNeg P) z := by
+  simp only [Ext.neg, mk, affNeg, Ext.mk.injEq]
+  refine ⟨by ring, trivial, by ring, trivial⟩
+
+theorem neg_correct (p : Ext F) (P : F × F) (hp : wellFormed p = true) (hP : toAff p = some P) :
+    wellFormed p.neg = true ∧ toAff p.neg = some (affNeg P) := by
+  obtain ⟨hz, e⟩ := ext_repr hp hP
+  rw [e, neg_mk]; exact denotes_mk _ hz
+
+theorem neg_z (p : Ext F) : p.neg.z = p.z := rfl
+
+/-- `neg` denotes `affNeg` as soon as `Z ≠ 0` (no `T` invariant needed) -/
+theorem toAff_neg (p : Ext F) : toAff p.neg = (toAff p).map affNeg := by
+  unfold toAff
+  by_cases h : p.z = 0
+  · simp [h, Ext.neg]
+  · simp [h, Ext.neg, affNeg]
+
+theorem affineNeg_correct (q : Affine F) : ofAffine q.neg = affNeg (ofAffine q) := rfl
+
+theorem fromAffine_eq_mk (q : Affine F) : fromAffine q = mk (ofAffine q) 1 := by
+  simp [fromAffine, mk, ofAffine]
+
+theorem fromAffine_correct (q : Affine F) :
+    wellFormed (fromAffine q) = true ∧ toAff (fromAffine q) = some (ofAffine q) := by
+  rw [fromAffine_eq_mk]; exact denotes_mk _ one_ne_zero
+
+theorem affAddDefined_neg (d : F) (P Q : F × F) :
+    affAddDefined d P (affNeg Q) = affAddDefined d P Q := by
+  rw [Bool.eq_iff_iff, affAddDefined_iff, affAddDefined_iff]
+  simp only [affNeg]
+  have e : d * P.1 * -Q.1 * P.2 * Q.2 = -(d * P.1 * Q.1 * P.2 * Q.2) := by ring
+  rw [e, ← sub_eq_add_neg, sub_neg_eq_add]
+  exact and_comm
+
+theorem sub_correct (c : Curve F) (hA : ∀ e, c.mulByA e = c.a * e) (p q : Ext F) (P Q : F × F)
+    (hp : wellFormed p = true) (hq : wellFormed q = true)
+    (hP : toAff p = some P) (hQ : toAff q = some Q) (hd : affAddDefined c.d P Q = true) :
+    wellFormed (sub c p q) = true ∧ toAff (sub c p q) = some (affAdd c.a c.d P (affNeg Q)) := by
+  obtain ⟨hq', hQ'⟩ := neg_correct q Q hq hQ
+  exact add_correct c hA p q.neg P (affNeg Q) hp hq' hP hQ' (by rw [affAddDefined_neg]; exact hd)
+
+theorem subMixed_correct (c : Curve F) (hA : ∀ e, c.mulByA e = c.a * e) (p : Ext F) (q : Affine F)
+    (P : F × F) (hp : wellFormed p = true) (hP : toAff p = some P)
+    (hd : affAddDefined c.d P (ofAffine q) = true) :
+    wellFormed (subMixed c p q) = true ∧
+      toAff (subMixed c p q) = some (affAdd c.a c.d P (affNeg (ofAffine q))) := by
+  have := addMixed_correct c hA p q.neg P hp hP
+    (by rw [affineNeg_correct, affAddDefined_neg]; exact hd)
+  rwa [affineNeg_correct] at this
+
+theorem affineAdd_correct (c : Curve F) (hA : ∀ e, c.mulByA e = c.a * e) (p q : Affine F)
+    (hd : affAddDefined c.d (ofAffine p) (ofAffine q) = true) :
+    wellFormed (affineAdd c p q) = true ∧
+      toAff (affineAdd c p q) = some (affAdd c.a c.d (ofAffine p) (ofAffine q)) :=
+  addMixed_correct c hA _ q _ (fromAffine_correct p).1 (fromAffine_correct p).2 hd
+
+theorem affineSub_correct (c : Curve F) (hA : ∀ e, c.mulByA e = c.a * e) (p q : Affine F)
+    (hd : affAddDefined c.d (ofAffine p) (ofAffine q) = true) :
+    wellFormed (affineSub c p q) = true ∧
+      toAff (affineSub c p q) = some (affAdd c.a c.d (ofAffine p) (affNeg (ofAffine q))) :=
+  subMixed_correct c hA _ q _ (fromAffine_correct p).1 (fromAffine_correct p).2 hd
+
+/-! ## 3. doubling (dbl-2008-hwcd; uses the curve equation) -/
+
+theorem double_mk (c : Curve F) (hA : ∀ e, c.mulByA e = c.a * e) (P : F × F) (z : F)
+    (hc : c.a * P.1 * P.1 + P.2 * P.2 = 1 + c.d * P.1 * P.1 * P.2 * P.2)
+    (h1 : 1 + c.d * P.1 * P.1 * P.2 * P.2 ≠ 0) (h2 : 1 - c.d * P.1 * P.1 * P.2 * P.2 ≠ 0) :
+    double c (mk P z) =
+      mk (affAdd c.a c.d P P)
+        (z * z * (z * z) * (-((1 - c.d * P.1 * P.1 * P.2 * P.2) * (1 + c.d * P.1 * P.1 * P.2 * P.2)))) := by
+  simp only [double, mk, affAdd, hA, sq, dbl, Ext.mk.injEq]
+  generalize hK : c.d * P.1 * P.1 * P.2 * P.2 = K at hc h1 h2 ⊢
+  have ha : c.a * (P.1 * z * (P.1 * z)) = (1 + K - P.2 * P.2) * (z * z) := by
+    linear_combination (z * z) * hc
+  rw [ha]
+  refine ⟨?_, ?_, ?_, ?_⟩
+  · field_simp; ring
+  · field_simp; linear_combination (-(z ^ 4 * (1 + K))) * hc
+  · field_simp; linear_combination (-(2 * z ^ 4 * P.1 * P.2)) * hc
+  · ring
+
+theorem double_correct (c : Curve F) (hA : ∀ e, c.mulByA e = c.a * e) (p : Ext F) (P : F × F)
+    (hp : wellFormed p = true) (hP : toAff p = some P) (hc : onCurve c.a c.d P = true)
+    (hd : affAddDefined c.d P P = true) :
+    wellFormed (double c p) = true ∧ toAff (double c p) = some (affAdd c.a c.d P P) := by
+  obtain ⟨hz, e⟩ := ext_repr hp hP
+  obtain ⟨h1, h2⟩ := (affAddDefined_iff _ _ _).1 hd
+  rw [onCurve_iff] at hc
+  rw [e, double_mk c hA P _ hc h1 h2]
+  exact denotes_mk _ (mul_ne_zero (mul_ne_zero (mul_ne_zero hz hz) (mul_ne_zero hz hz))
+    (neg_ne_zero.2 (mul_ne_zero h2 h1)))
+
+/-! ## 4. closure: the sum of two curve points is on the curve -/
+
+/-- the polynomial identity behind closure (cofactors found by a Gröbner-basis computation) -/
+theorem closure_poly (a d x1 y1 x2 y2 : F)
+    (e1 : a * x1 * x1 + y1 * y1 = 1 + d * x1 * x1 * y1 * y1)
+    (e2 : a * x2 * x2 + y2 * y2 = 1 + d * x2 * x2 * y2 * y2) :
+    a * (x1 * y2 + y1 * x2) ^ 2 * (1 - d * x1 * x2 * y1 * y2) ^ 2
+      + (y1 * y2 - a * x1 * x2) ^ 2 * (1 + d * x1 * x2 * y1 * y2) ^ 2
+      - (1 - d * x1 * x2 * y1 * y2) ^ 2 * (1 + d * x1 * x2 * y1 * y2) ^ 2
+      - d * (x1 * y2 + y1 * x2) ^ 2 * (y1 * y2 - a * x1 * x2) ^ 2 = 0 := by
+  linear_combination
+    (d^3*x1^2*y1^2*x2^4*y2^4 + a*d^2*x1^2*x2^4*y2^4 + d^2*y1^2*x2^4*y2^4 - a^2*d*x1^2*x2^4*y2^2
+      - a*d*y1^2*x2^4*y2^2 - a*d*x1^2*x2^2*y2^4 + 2*a*d*x2^4*y2^4 - d^2*x2^4*y2^4 - d*y1^2*x2^2*y2^4
+      - 2*a^2*x2^4*y2^2 - 2*a*x2^2*y2^4 + a^2*x2^4 + 4*a*x2^2*y2^2 - 2*d*x2^2*y2^2 + y2^4) * e1
+    + (a^2*d*x1^4*x2^2*y2^2 + d*y1^4*x2^2*y2^2 + 2*a^2*x1^2*x2^2*y2^2 - 2*a*d*x1^2*x2^2*y2^2
+      + 2*a*y1^2*x2^2*y2^2 - 2*d*y1^2*x2^2*y2^2 - a^2*x1^2*x2^2 - a*y1^2*x2^2 - a*x1^2*y2^2
+      - 2*a*x2^2*y2^2 + d*x2^2*y2^2 - y1^2*y2^2 + a*x2^2 + y2^2 + 1) * e2
+
+theorem affAdd_onCurve (a d : F) (P Q : F × F) (hP : onCurve a d P = true) (hQ : onCurve a d Q = true)
+    (hd : affAddDefined d P Q = true) : onCurve a d (affAdd a d P Q) = true := by
+  obtain ⟨x1, y1⟩ := P
+  obtain ⟨x2, y2⟩ := Q
+  rw [onCurve_iff] at hP hQ ⊢
+  obtain ⟨h1, h2⟩ := (affAddDefined_iff _ _ _).1 hd
+  simp only at hP hQ h1 h2
+  have key := closure_poly a d x1 y1 x2 y2 hP hQ
+  simp only [affAdd]
+  generalize hK : d * x1 * x2 * y1 * y2 = K at h1 h2 key ⊢
+  field_simp
+  linear_combination key
 
 end Ark.Curve.TE
